@@ -6,9 +6,24 @@
 package verifrt
 
 import (
+	"context"
 	"fmt"
 	"sort"
 )
+
+type rollbackKey struct{}
+
+// MarkRollback tags the context of a utils.Txn rollback step (inserted by the rewrite
+// tool into the scratch copy): everything done under it is a compensating step.
+func MarkRollback(ctx context.Context) context.Context {
+	return context.WithValue(ctx, rollbackKey{}, true)
+}
+
+// IsRollback reports whether ctx descends from a rollback step.
+func IsRollback(ctx context.Context) bool {
+	v, _ := ctx.Value(rollbackKey{}).(bool)
+	return v
+}
 
 // Permute, when set by the simulator, returns a permutation of 0..n-1 drawn from
 // the run's map-order PRNG stream. nil means "sorted order".
